@@ -335,10 +335,6 @@ func NewCase(g *Gen, id int, forceValidate *bool) *Case {
 		}
 	} else {
 		in := g.Input(n)
-		if n.Kind == KPre && in.Kind != "str" {
-			// Preprocess[string,string].Parse takes a string: other dynamic types cannot be handed to the root
-			in = strV(Pick(g.R.Fork(0x9e0), []string{"abc", " pad ", "", "  ", "Hello", "a1"}))
-		}
 		if g.P.NilBias {
 			probe := Build(&Recorder{}, n, false)
 			for try := 0; try < 10; try++ {
